@@ -259,18 +259,18 @@ fn dfa_check_after(first: u8) {
     std::mem::forget(raw);
 }
 
-//@ id: c11_dfa_b2
+//@ id: c11_dfa_b2_a
 //@ property: C11
 //@ tier: thorough
 //@ encodes: the logos-generated <Tok as Logos>::lex (real DFA, no stub), logos::Lexer::{next, span}
-//@ sym: two-byte ASCII sources: first byte one of 24 constants covering every first character of a multi-character token rule and every character class (constant call sites chosen by the solver), second byte symbolic (all 128)
+//@ sym: two-byte ASCII sources: first byte one of the constants - / = < + . (constant call sites chosen by the solver), second byte symbolic (all 128)
 //@ oracle: as c11_dfa_b1
-//@ bounds: 24 x 128 two-byte sources; unwind 5
+//@ bounds: 6 x 128 two-byte sources (the four c11_dfa_b2_* harnesses together cover every first character of a multi-character token rule and every character class); unwind 5
 //@ replay: playback
 //@ timeout: 3000
 #[kani::proof]
 #[kani::unwind(5)]
-fn c11_dfa_b2() {
+fn c11_dfa_b2_a() {
     let which: u8 = kani::any();
     match which {
         | 0 => dfa_check_after(b'-'),
@@ -278,24 +278,75 @@ fn c11_dfa_b2() {
         | 2 => dfa_check_after(b'='),
         | 3 => dfa_check_after(b'<'),
         | 4 => dfa_check_after(b'+'),
-        | 5 => dfa_check_after(b'.'),
-        | 6 => dfa_check_after(b':'),
-        | 7 => dfa_check_after(b'_'),
-        | 8 => dfa_check_after(b'\''),
-        | 9 => dfa_check_after(b'"'),
-        | 10 => dfa_check_after(b'0'),
-        | 11 => dfa_check_after(b'a'),
-        | 12 => dfa_check_after(b'A'),
-        | 13 => dfa_check_after(b' '),
-        | 14 => dfa_check_after(b'\n'),
-        | 15 => dfa_check_after(b'\r'),
-        | 16 => dfa_check_after(b'\\'),
-        | 17 => dfa_check_after(b'#'),
-        | 18 => dfa_check_after(b'e'),
-        | 19 => dfa_check_after(b'd'),
-        | 20 => dfa_check_after(b'('),
-        | 21 => dfa_check_after(b'*'),
-        | 22 => dfa_check_after(b'\x0b'),
+        | _ => dfa_check_after(b'.'),
+    }
+}
+
+//@ id: c11_dfa_b2_b
+//@ property: C11
+//@ tier: thorough
+//@ encodes: the logos-generated <Tok as Logos>::lex (real DFA, no stub), logos::Lexer::{next, span}
+//@ sym: two-byte ASCII sources: first byte one of the constants : _ ' " 0 a (constant call sites chosen by the solver), second byte symbolic (all 128)
+//@ oracle: as c11_dfa_b1
+//@ bounds: 6 x 128 two-byte sources (the four c11_dfa_b2_* harnesses together cover every first character of a multi-character token rule and every character class); unwind 5
+//@ replay: playback
+//@ timeout: 3000
+#[kani::proof]
+#[kani::unwind(5)]
+fn c11_dfa_b2_b() {
+    let which: u8 = kani::any();
+    match which {
+        | 0 => dfa_check_after(b':'),
+        | 1 => dfa_check_after(b'_'),
+        | 2 => dfa_check_after(b'\''),
+        | 3 => dfa_check_after(b'"'),
+        | 4 => dfa_check_after(b'0'),
+        | _ => dfa_check_after(b'a'),
+    }
+}
+
+//@ id: c11_dfa_b2_c
+//@ property: C11
+//@ tier: thorough
+//@ encodes: the logos-generated <Tok as Logos>::lex (real DFA, no stub), logos::Lexer::{next, span}
+//@ sym: two-byte ASCII sources: first byte one of the constants A space newline carriage-return backslash # (constant call sites chosen by the solver), second byte symbolic (all 128)
+//@ oracle: as c11_dfa_b1
+//@ bounds: 6 x 128 two-byte sources (the four c11_dfa_b2_* harnesses together cover every first character of a multi-character token rule and every character class); unwind 5
+//@ replay: playback
+//@ timeout: 3000
+#[kani::proof]
+#[kani::unwind(5)]
+fn c11_dfa_b2_c() {
+    let which: u8 = kani::any();
+    match which {
+        | 0 => dfa_check_after(b'A'),
+        | 1 => dfa_check_after(b' '),
+        | 2 => dfa_check_after(b'\n'),
+        | 3 => dfa_check_after(b'\r'),
+        | 4 => dfa_check_after(b'\\'),
+        | _ => dfa_check_after(b'#'),
+    }
+}
+
+//@ id: c11_dfa_b2_d
+//@ property: C11
+//@ tier: thorough
+//@ encodes: the logos-generated <Tok as Logos>::lex (real DFA, no stub), logos::Lexer::{next, span}
+//@ sym: two-byte ASCII sources: first byte one of the constants e d ( * vertical-tab DEL (constant call sites chosen by the solver), second byte symbolic (all 128)
+//@ oracle: as c11_dfa_b1
+//@ bounds: 6 x 128 two-byte sources (the four c11_dfa_b2_* harnesses together cover every first character of a multi-character token rule and every character class); unwind 5
+//@ replay: playback
+//@ timeout: 3000
+#[kani::proof]
+#[kani::unwind(5)]
+fn c11_dfa_b2_d() {
+    let which: u8 = kani::any();
+    match which {
+        | 0 => dfa_check_after(b'e'),
+        | 1 => dfa_check_after(b'd'),
+        | 2 => dfa_check_after(b'('),
+        | 3 => dfa_check_after(b'*'),
+        | 4 => dfa_check_after(b'\x0b'),
         | _ => dfa_check_after(b'\x7f'),
     }
 }
